@@ -111,6 +111,8 @@ func vh_C03_chain_pathitems() { vC03Run(vWorldChains(2), false) }
 func vh_C03_imports_params()    { vC03Run(vWorldImports(0), false) }
 func vh_C03_imports_responses() { vC03Run(vWorldImports(1), false) }
 func vh_C03_imports_item()      { vC03Run(vWorldImports(2), false) }
+func vh_C03_imports_cyclic()    { vC03Run(vWorldImports(3), false) }
+func vh_C03_keywords()          { vC03Run(vWorldKeywords(), false) }
 func vh_C03_ops()               { vC03Run(vWorldOps(false), false) }
 
 func vh_C03_ports()     { vC03Run(vWorldPorts(), true) }
